@@ -78,7 +78,7 @@ fn program(u: &mut Unstructured, max: usize) -> Result<Vec<ItCall>> {
     let n = u.int_in_range(0..=max)?;
     let mut v = Vec::with_capacity(n);
     for _ in 0..n {
-        v.push(match u.int_in_range(0u8..=10)? {
+        v.push(match u.int_in_range(0u8..=12)? {
             0..=5 => ItCall::Next,
             6..=8 => ItCall::Back,
             _ => ItCall::Probe,
@@ -88,13 +88,17 @@ fn program(u: &mut Unstructured, max: usize) -> Result<Vec<ItCall>> {
 }
 
 fn hint(u: &mut Unstructured) -> Result<Hint> {
-    Ok(match u.int_in_range(0u8..=8)? {
+    Ok(match u.int_in_range(0u8..=10)? {
         0 | 1 => Hint::Exact,
         2 => Hint::Unknown,
         3 => Hint::LowerOnly,
         4 => Hint::UpperOnly,
         5 => Hint::Loose(u.int_in_range(0..=3)?, u.int_in_range(0..=5)?),
         6 => Hint::UpperPow(u.int_in_range(10..=12)?),
+        7 => Hint::LowerShort(u.int_in_range(1..=6)?),
+        8 => Hint::Half,
+        9 => Hint::FreshLower,
+        10 => Hint::FreshBounds,
         _ => Hint::UpperHuge(u.int_in_range(0..=3)?),
     })
 }
